@@ -45,8 +45,31 @@ def load_findings():
 
 
 def finding_for(prop, sig, findings):
-    import fnmatch
+    """the open known finding a replay signature falls under, or None.  A signature of the form
+    `head|cat1|cat2|...` lists independent discrepancy categories: it is known only if EVERY
+    category matches a pattern of some open finding (the first one found is reported)."""
+    import re as _re
 
+    class fnmatch:  # '*' is the only wildcard; everything else (incl. brackets) is literal
+        @staticmethod
+        def fnmatchcase(text, pat):
+            return _re.fullmatch(".*".join(_re.escape(x) for x in pat.split("*")), text, _re.S) is not None
+
+    if "|" in sig:
+        head, *cats = sig.split("|")
+        first = None
+        for cat in cats:
+            hit = None
+            for f in findings:
+                if f.get("property") != prop or f.get("status", "open") != "open":
+                    continue
+                if any(fnmatch.fnmatchcase(cat, pat) for pat in f.get("categories", [])):
+                    hit = f
+                    break
+            if hit is None:
+                return None
+            first = first or hit
+        return first
     for f in findings:
         if f.get("property") != prop or f.get("status", "open") != "open":
             continue
